@@ -29,6 +29,8 @@ contract("abs:TagAndStatusStatement.status", trusted=True,
          params={"self": "ref:TagAndStatusStatement"}, result="Status",
          modifies=["self._cached_status"],
          ensures={"value": "result == child_status(self)",
+                  "final-is-sticky": "implies(old(self._cached_status).is_final(), result == old(self._cached_status) "
+                                     "and self._cached_status == old(self._cached_status))",
                   "reachable-set": "result in " + COMMON},
          doc="status read of a child element: a value of the reachable (common) status set; "
              "caches into _cached_status only")
